@@ -25,7 +25,8 @@ fn check_parents<const N: usize>() {
     }
     let ld = match LayersData::from_vec(v) {
         Ok(l) => l,
-        Err(_) => {
+        Err(e) => {
+            core::mem::forget(e);
             assert!(false, "from_vec failed on a forest");
             return;
         }
